@@ -83,6 +83,9 @@ func (n *Node) applyToTip(e *blockEntry) error {
 	w.postApply(n, snap, parentState, e, supp, ns, au)
 	first := !e.applied
 	enc := encodeState(ns)
+	if w.tape.Choose(w.wireRate()*3) == 0 {
+		w.onWire("state", ns, enc)
+	}
 	sig := diffDigest(au.SiacoinElementDiffs(), au.SiafundElementDiffs(), au.FileContractElementDiffs(), au.V2FileContractElementDiffs())
 	if prev, ok := w.stateByBlock[e.id]; ok {
 		if prev != string(enc)+sig {
